@@ -25,7 +25,7 @@ theorem disc_pinned : Kvass.Gen.DiscSrc.digests = [
   ("pkg/explore/explore.go:Explore.Get", "e46243bb60dcdef6"),
   ("pkg/explore/explore.go:Explore.Run", "c92a9751c71742fa"),
   ("pkg/explore/explore.go:Explore.UpdateTargets", "8ce7ea8450da3631"),
-  ("pkg/explore/explore.go:Explore.exploreOnce", "d237172a8bb85e90"),
+  ("pkg/explore/explore.go:Explore.exploreOnce", "6218bfaec288d987"),
   ("pkg/explore/explore.go:New", "f8d5b3eabb2c1589"),
   ("pkg/explore/explore.go:explore", "7db5e891744adf43")
 ] := rfl
